@@ -54,6 +54,21 @@ package slug
 //@   at-call os.Symlink C15,C02.unpack.link-target: a0 == header.Linkname && a1 == info.Path
 //@   at-call os.Create#1 C15,C02.unpack.file-path: a0 == info.Path
 //@   invariant loop2 C12.unpack.rejected.inv2: !$rejected
+// the last path element is examined before a file or directory is created at it, and a link found there is removed
+// first: os.Create, os.MkdirAll, os.Chmod and os.Chtimes all follow a link in the last element (the parents are
+// NewUnpackInfo's business)
+//@   ghost $lstatPath String = ""
+//@   ghost $lstatIsLink Bool = false
+//@   ghost $lastRemove String = ""
+//@   at-call os.Create#1 C01,C15.unpack.file-not-through-link: $lstatPath == info.Path && ($lstatIsLink ==> $lastRemove == info.Path)
+//@   at-call os.MkdirAll#2 C01,C15.unpack.dir-not-through-link: a0 == info.Path && $lstatPath == info.Path && ($lstatIsLink ==> $lastRemove == info.Path)
+// directory metadata is restored in archive order, so that for a directory recorded twice the last record wins
+//@   ghost $nextDir Int = 0
+//@   invariant loop1 C15.unpack.dir-order.inv1: $nextDir == 0
+//@   invariant loop2 C15.unpack.dir-order.inv2: $nextDir == rangeindex + 1 && $nextDir <= len(directoriesExtracted)
+//@   at-call unpackinfo.UnpackInfo.RestoreInfo#3 C15.unpack.dirs-restored-in-archive-order: 0 <= $nextDir && $nextDir < len(directoriesExtracted) && a0 == directoriesExtracted[$nextDir]
+//@   set-at-call unpackinfo.UnpackInfo.RestoreInfo#3 upd: $nextDir = $nextDir + 1
+//@   ensures C15.unpack.all-dirs-restored: err == nil ==> $nextDir == len(directoriesExtracted)
 //@   ensures C12.unpack.illegal-slug: $rejected && !AbsErr(dst) ==> dyntype(err, "*slug.IllegalSlugError")
 //@   frame C01.frame: segUnder(Clean(_p), Clean(dst)) || Clean(_p) == Dir(Clean(dst))
 //@   slice-invariant directoriesExtracted C01.dirs: segUnder(Clean(_e.Path), Clean(dst))
